@@ -226,6 +226,20 @@ def rule_acndata(ck):
                 ok = bool(z)
                 why = f"the cap `{src(rest[0], 60)}` is not max_battery_power x (departure - arrival) x period / 60 (kW x periods x hours per period)"
         ck.require(ok, "C15.R8", f, b["requested_energy"], ok="force_feasible: request = min(document energy, max power x stay x period/60)", bad=why, sink="force-feasible:on")
+    # the stay the cap (and the capacity function) is computed for is the stay of the session that is built: every statement that reads
+    # arrival / departure together with the maximum power or the capacity function sees the same definitions of them as the EV(...) call
+    # (a max_len clip placed after the cap makes the cap that of the unclipped stay)
+    if len(keep) == 2:
+        for nd in fl.cfg.nodes:
+            exprs = list(fl.cfg.node_exprs(nd))
+            uses = {x.id for e_ in exprs for x in ast.walk(e_) if isinstance(x, ast.Name) and isinstance(x.ctx, ast.Load)}
+            txt = " ".join(canon(e_) for e_ in exprs)
+            if nd is n or not (keep <= uses) or not ("max_battery_power" in uses or "capacity_fn" in txt):
+                continue
+            stale = [k for k in sorted(keep) if fl.defs_at(nd, k) != fl.defs_at(n, k)]
+            ck.require(not stale, "C15.R8", f, nd.stmt if getattr(nd, "stmt", None) is not None else exprs[0], ok="computed for the stay of the session that is built",
+                       bad=f"`{src(nd.stmt if getattr(nd, 'stmt', None) is not None else exprs[0], 60)}` reads {stale} before the value the session is built with is final "
+                           "(the max_len clip comes later): the cap / fit is computed for a longer stay than the session has", sink="stay-of-built-session")
     # capacity function protocol arguments
     cf = [(nn, cc) for nn, cc in calls_in(fl) if isinstance(cc.func, ast.Subscript) and "capacity_fn" in canon(cc.func.slice)]
     for nn, cc in cf:
